@@ -44,7 +44,7 @@ CHECKS["C14"] = (
     "derived by exact suffix removal (no strip()-as-suffix), a page name is never interpolated into a regex unescaped, the rewrite loop "
     "visits exactly *.zo/*.zot/*.zoq recursively and rewrites each file from its own content, and the rename precedes the rewrites. "
     "These hold for all (A, B) pairs and directory contents because they are facts about the code's shapes, not about sampled names.",
-    "Does not decide byte-level results (newline translation by read_text/write_text is outside). A regex-based rewrite is reported as undecided (exit 2) unless it is refuted by the missing re.escape.",
+    "Does not decide byte-level results (newline translation by read_text/write_text is outside). A regex-based rewrite is decided by the concrete-page runs (and the missing-re.escape rule).",
     "DESIGN.md section 4, C14",
 )
 CHECKS["C15"] = (
@@ -223,6 +223,31 @@ ADDENDA = {
     "C18": " Added (R2): the function that reads the clock may be a helper of the same module (result names are related through the returned tuple) and neither it nor its callers may be memoised.",
 }
 
+# what rounds 3 and 4 of independent changes / refactors replaced or added (DESIGN.md 9.8, 9.9): the shape rules named in the base text above for these clauses are
+# now decided by interpreting the operation from its entry point over virtual files / objects
+ROUND34 = {
+    "C01": " Rounds 3-4: Page.notes is evaluated on a page with unevenly nested sections (file order, depth first, each note once); ctx annotations may be wrapped (Optional[...]).",
+    "C02": " Rounds 3-4: a concrete page (same tag / property value and dates at several scopes, dated headers right after one-word items) is driven through the listener in ParseTreeWalker order; "
+           "every note must carry exactly the values of the title line, its open sections and itself (value equality is not visible to the provenance-label walk).",
+    "C03": " Rounds 3-4: which helpers to_sql_where invokes (whatever holds the registry) and that all clauses end under the AND is decided by an abstract run with the helpers replaced by marker clauses.",
+    "C05": " Rounds 3-4: write-back conservation is decided by abstract runs of _update_zo_file over virtual pages (adjacent multi-line notes, U+2028 / form feed / CR, first and last line); "
+           "index body vs file line is compared for plain notes and todos with and without priority, incl. priority look-alike first words (this found and repaired c489f53).",
+    "C07": " Rounds 3-4: persistence scenarios keep older and newer dates in next_ids.json (date arithmetic on constants as library facts).",
+    "C08": " Rounds 3-4: (R5) typestate of the parser's listener set - on every path the ErrorManager is still registered when parser.prog() starts.",
+    "C09": " Rounds 3-4: partition, order, every selector, count and property values are decided through execute_with_session on scenario notes (equal labels not adjacent, empty labels, "
+           "a section title that extends another one, an empty selection), independent of the data structure that carries the groups.",
+    "C10": " Rounds 3-4: conservation and the locator are decided by abstract runs of _move_note end to end over 29 virtual page layouts with files read back as written "
+           "(same page, destination created from its template, every ending of the destination, every item kind among look-alike lines, U+2028).",
+    "C11": " Rounds 3-4: Note.__eq__ is evaluated on 16 pairs of notes (one field differing; closed / cancelled todos differing only in priority; blanks); write-back conservation as C05.",
+    "C12": " Rounds 3-4: the refresh is run abstractly over four virtual saved-query pages (header = leading comment run, one stats line, fresh results only, final newline); a multi-line note "
+           "with a whitespace-only continuation line is rendered through the query path unchanged.",
+    "C14": " Rounds 3-4: the rename is additionally run on concrete virtual pages with look-alike links ([[Ax]], [[A/sub]], [[A.zot]], [[A-y]] ...), which also decides regex-based rewrites (re on constants is a library fact).",
+    "C15": " Rounds 3-4: expansion scenarios include a diamond of saved queries and a repeated reference; an internal exception on a valid query set is a violation.",
+    "C16": " Rounds 3-4: first-match-wins / no-match-no-write / no-clobber are decided by abstract runs of init_from_template with opaque pattern objects and a recorded renderer.",
+    "C17": " Rounds 3-4: target collection, option arithmetic (option k answers exactly what a line holding only the k-th target answers), target kinds, .zoq pages, query lines and "
+           "ID links over one / two pages are decided by abstract runs of run_action_open over a virtual page.",
+}
+
 
 def main() -> None:
     props = [json.loads(l) for l in (VERIF / "properties.jsonl").read_text().splitlines() if l.strip()]
@@ -232,7 +257,7 @@ def main() -> None:
         pid = p["id"]
         if pid in CHECKS:
             tech, text, note, ref = CHECKS[pid]
-            text = text + ADDENDA.get(pid, "") + (METHOD if pid in ("C02", "C03", "C05", "C06", "C08", "C09", "C10", "C11", "C12", "C13", "C14", "C18") else "")
+            text = text + ADDENDA.get(pid, "") + ROUND34.get(pid, "") + (METHOD if pid in ("C01", "C02", "C03", "C05", "C06", "C07", "C08", "C09", "C10", "C11", "C12", "C13", "C14", "C15", "C16", "C17", "C18") else "")
             checks.append(
                 {
                     "property_id": pid,
